@@ -241,6 +241,7 @@ def run(rep):
     from .C05 import subscribe_on_all_exits, subscribe_all_spec
     subscribe_on_all_exits(rep, mod, 'R07.9', only=('_uncached_subscriptions',))
     subscribe_all_spec(rep, mod, 'R07.9')
+    cside.verify_snapshot_c(rep, cside.cu(rep), 'R07.9')
 
 
 def walk_body(stmts):
